@@ -29,13 +29,23 @@ RULE = (
 )
 ASSUMPTIONS = ["dynamic Enum subclasses are registered in this module so that pickle can find them"]
 
-_NAMES = ["A", "B", "C", "ZERO", "X1", "neg", "Lower", "_U", "VALUE", "name_", "ALIAS", "K9"]
+_NAMES = ["A", "B", "C", "ZERO", "X1", "neg", "Lower", "_U", "VALUE", "name_", "ALIAS", "K9",
+          # names that are also attributes of int (members are ints), sunder names
+          "real", "imag", "numerator", "denominator", "bit_length", "conjugate", "_MAX_", "_first_"]
+_CLS_NAMES = ["GenEnum", "Alert", "HTTPCode", "lvl"]
 
 
-def make_enum(defn, tag):
+def _upper_snake(name: str) -> str:
+    import re
+
+    return re.sub(r"(?<=[a-z0-9])(?=[A-Z])|(?<=[A-Z])(?=[A-Z][a-z])", "_", name).upper()
+
+
+def make_enum(defn, tag, cls_name="GenEnum"):
     import betterproto
 
-    name = f"GenEnum_{tag}"
+    # (the class is registered in this module under its name so that pickle finds it; the latest definition wins)
+    name = cls_name if cls_name != "GenEnum" else f"GenEnum_{tag}"
     mod = sys.modules[__name__]
 
     def body(ns):
@@ -60,9 +70,9 @@ def targets(ctx):
 
     # ------------------------------------------------------------------ (a) definitions
     @collecting
-    def def_clauses(out, defn):
+    def def_clauses(out, defn, cls_name="GenEnum"):
         _counter[0] += 1
-        E = guard("define", make_enum, defn, f"{ctx.shard}_{_counter[0]}")
+        E = guard("define", make_enum, defn, f"{ctx.shard}_{_counter[0]}", cls_name)
         try:
             canon = {}
             for n, v in defn:
@@ -78,7 +88,9 @@ def targets(ctx):
                     out.append(("lookup_by_name_identity", f"E[{n!r}] is not E({v})"))
                 if guard("from_string", E.from_string, n) is not by_num:
                     out.append(("from_string_identity", f"from_string({n!r}) is not E({v})"))
-                if guard("getattr", getattr, E, n) is not by_num:
+                # (attribute access is only asked for names that are not attributes of int itself: members are ints, and
+                # `E.real` is Python's int.real - looking a member up BY NAME is E[name] / E.from_string(name))
+                if not hasattr(int, n) and guard("getattr", getattr, E, n) is not by_num:
                     out.append(("attribute_identity", f"E.{n} is not E({v})"))
                 if copy.copy(by_num) is not by_num or copy.deepcopy(by_num) is not by_num:
                     out.append(("copy_identity", f"copy/deepcopy of E({v}) is a new object"))
@@ -164,9 +176,15 @@ def targets(ctx):
 
     def def_ev(case):
         defn = [(n, v) for n, v in case["defn"]]
-        found = def_clauses(defn)
+        found = def_clauses(defn, case.get("cls_name", "GenEnum"))
         nums = [v for _, v in defn]
         shape = []
+        if case.get("cls_name"):
+            shape.append("named_class")
+        if any(n in ("real", "imag", "numerator", "denominator", "bit_length", "conjugate") for n, _ in defn):
+            shape.append("int_attribute_name")
+        if any(n.startswith("_") and n.endswith("_") for n, _ in defn):
+            shape.append("sunder_name")
         if any(v < 0 for v in nums):
             shape.append("neg")
         if len(set(nums)) < len(nums):
@@ -187,7 +205,19 @@ def targets(ctx):
         if draw(st.booleans()) and len(names) > 1:  # force an alias
             i = draw(st.integers(1, len(names) - 1))
             nums[i] = nums[draw(st.integers(0, i - 1))]
-        return {"defn": [[n, v] for n, v in zip(names, nums)]}
+        case = {"defn": [[n, v] for n, v in zip(names, nums)]}
+        cls_name = draw(st.sampled_from(_CLS_NAMES))
+        if cls_name != "GenEnum":
+            case["cls_name"] = cls_name
+            if draw(st.booleans()):
+                # a value that carries the enum's own name as a prefix NEXT TO the unprefixed one (ALERT_HIGH and HIGH): two
+                # different members
+                base = draw(st.sampled_from(names))
+                twin = f"{_upper_snake(cls_name)}_{base}"
+                if twin not in names:
+                    used = {v for _, v in case["defn"]}
+                    case["defn"].append([twin, next(x for x in range(1000, 1100) if x not in used)])
+        return case
 
     # ------------------------------------------------------------------ (b) field positions
     POS = [
@@ -201,6 +231,11 @@ def targets(ctx):
         ("Maps", "m_string_plain", "Plain", lambda v: {"k": v}),
         ("Oneofs", "a_color", "Color", lambda v: v),
         ("Oneofs", "c_plain", "Plain", lambda v: v),
+        ("Words", "mw", "Word", lambda v: {"k": v}),
+        ("Words", "mk", "Kw", lambda v: {"k": v}),
+        ("Words", "miw", "Word", lambda v: {5: v}),
+        ("Words", "rk", "Kw", lambda v: [v]),
+        ("Words", "pw", "Word", lambda v: v),
     ]
 
     def unwrap(val):
@@ -300,8 +335,7 @@ def targets(ctx):
 
     # corpus enum definitions (through the plugin) as fixed definition cases
     def corpus_defs():
-        for ename in ("Color", "Plain"):
-            E = c.bp(ename)
+        for ename in ("Color", "Plain", "Word"):  # (Kw: value names that are keywords get an underscore - the known C05 finding)
             yield {"plugin_enum": ename}
 
     @collecting
